@@ -51,9 +51,9 @@ def DirsAll (p : Dir → Bool) (c : Core) : Prop :=
 
 section
 variable (p : Dir → Bool)
-  /- `p` looks at the kind only, so that the accumulation of parameters, annotation, body and the
-     explicit flag on the pending directive keeps it -/
-  (hkind : ∀ d d' : Dir, d'.kind = d.kind → p d = true → p d' = true)
+  /- `p` looks at the kind and the keyword text only, so that the accumulation of parameters, annotation,
+     body and the explicit flag on the pending directive keeps it -/
+  (hkind : ∀ d d' : Dir, d'.kind = d.kind → d'.keyword = d.keyword → p d = true → p d' = true)
 
 theorem processCurrent_dirs (c c' : Core) (hc : DirsAll p c) (h : c.processCurrent = .ok c') : DirsAll p c' := by
   unfold Core.processCurrent at h
@@ -76,31 +76,33 @@ theorem tracerFor_dirs (c : Core) : c.tracerFor.2.ctx = c.ctx ∧ c.tracerFor.2.
   repeat' split
   all_goals exact ⟨rfl, rfl, rfl⟩
 
-theorem setNamed_kind (d d' : Dir) (k : String) (v : Bytes) (h : d.setNamed k v = .ok d') : d'.kind = d.kind := by
+theorem setNamed_kind (d d' : Dir) (k : String) (v : Bytes) (h : d.setNamed k v = .ok d') :
+    d'.kind = d.kind ∧ d'.keyword = d.keyword := by
   unfold Dir.setNamed at h
   split at h
   · cases h
-  · cases h; rfl
+  · cases h; exact ⟨rfl, rfl⟩
 
-theorem appendParameter_kind (d d' : Dir) (v : Bytes) (h : d.appendParameter v = .ok d') : d'.kind = d.kind := by
+theorem appendParameter_kind (d d' : Dir) (v : Bytes) (h : d.appendParameter v = .ok d') :
+    d'.kind = d.kind ∧ d'.keyword = d.keyword := by
   unfold Dir.appendParameter at h
   simp only at h
   repeat' split at h
   all_goals first
     | (cases h; done)
     | exact setNamed_kind d d' _ _ h
-    | (cases h; rfl)
+    | (cases h; exact ⟨rfl, rfl⟩)
 
 include hkind in
 /-- `core.next`: the only place a directive is created is the Keyword branch -/
 theorem onLexeme_dirs (c c' : Core) (l : Lexeme) (hc : DirsAll p c)
-    (hnew : ∀ d : Dir, c.banned.contains d.kind = false → p d = true)
+    (hnew : ∀ d : Dir, c.banned.contains d.kind = false → Spec.newDirectiveType d.keyword = some d.kind → p d = true)
     (h : c.onLexeme l = .ok c') : DirsAll p c' ∧ c'.banned = c.banned := by
-  have pend : ∀ (d d2 : Dir), c.cur = some d → d2.kind = d.kind → ∀ dd, some d2 = some dd → p dd = true := by
-    intro d d2 hd hk dd hdd
+  have pend : ∀ (d d2 : Dir), c.cur = some d → d2.kind = d.kind → d2.keyword = d.keyword → ∀ dd, some d2 = some dd → p dd = true := by
+    intro d d2 hd hk hkw dd hdd
     simp only [Option.some.injEq] at hdd
     subst hdd
-    exact hkind d _ hk (hc.2 d hd)
+    exact hkind d _ hk hkw (hc.2 d hd)
   unfold Core.onLexeme at h
   split at h
   · -- Keyword
@@ -119,9 +121,9 @@ theorem onLexeme_dirs (c c' : Core) (l : Lexeme) (hc : DirsAll p c)
            intro d hd
            simp only [Option.some.injEq] at hd
            subst hd
-           refine hnew _ ?_
+           rename_i k _ hnt hnb _ _ _ _
+           refine hnew _ ?_ hnt
            rw [← hb]
-           rename_i k _ _ hnb _ _ _ _
            simpa using hnb)
   · -- Parameter
     split at h
@@ -131,7 +133,7 @@ theorem onLexeme_dirs (c c' : Core) (l : Lexeme) (hc : DirsAll p c)
       all_goals first
         | (cases h; done)
         | (cases h
-           exact ⟨⟨hc.1, pend d _ hd (appendParameter_kind d _ _ ‹d.appendParameter _ = Except.ok _›)⟩, rfl⟩)
+           exact ⟨⟨hc.1, pend d _ hd (appendParameter_kind d _ _ ‹d.appendParameter _ = Except.ok _›).1 (appendParameter_kind d _ _ ‹d.appendParameter _ = Except.ok _›).2⟩, rfl⟩)
   · -- Annotation
     split at h
     · cases h
@@ -139,27 +141,27 @@ theorem onLexeme_dirs (c c' : Core) (l : Lexeme) (hc : DirsAll p c)
       split at h
       · cases h
       · cases h
-        exact ⟨⟨hc.1, pend d _ hd rfl⟩, rfl⟩
+        exact ⟨⟨hc.1, pend d _ hd rfl rfl⟩, rfl⟩
   · split at h
     · cases h
     · rename_i d hd
       cases h
-      exact ⟨⟨hc.1, pend d _ hd rfl⟩, rfl⟩
+      exact ⟨⟨hc.1, pend d _ hd rfl rfl⟩, rfl⟩
   · split at h
     · cases h
     · rename_i d hd
       cases h
-      exact ⟨⟨hc.1, pend d _ hd rfl⟩, rfl⟩
+      exact ⟨⟨hc.1, pend d _ hd rfl rfl⟩, rfl⟩
   · split at h
     · cases h
     · rename_i d hd
       cases h
-      exact ⟨⟨hc.1, pend d _ hd rfl⟩, rfl⟩
+      exact ⟨⟨hc.1, pend d _ hd rfl rfl⟩, rfl⟩
   · split at h
     · cases h
     · rename_i d hd
       cases h
-      exact ⟨⟨hc.1, pend d _ hd rfl⟩, rfl⟩
+      exact ⟨⟨hc.1, pend d _ hd rfl rfl⟩, rfl⟩
   · -- (
     split at h
     · cases h
@@ -167,7 +169,7 @@ theorem onLexeme_dirs (c c' : Core) (l : Lexeme) (hc : DirsAll p c)
       split at h
       · cases h
       · cases h
-        exact ⟨⟨hc.1, pend d _ hd rfl⟩, rfl⟩
+        exact ⟨⟨hc.1, pend d _ hd rfl rfl⟩, rfl⟩
   · -- )
     split at h
     · cases h
@@ -197,7 +199,7 @@ theorem processInclude_dirs (c c' : Core) (fsys : FileSys) (kw : Lexeme) (h : c.
 
 include hkind in
 theorem run_dirs (fsys : FileSys) (n : Nat) (banned : List Kind)
-    (hnew : ∀ d : Dir, banned.contains d.kind = false → p d = true) :
+    (hnew : ∀ d : Dir, banned.contains d.kind = false → Spec.newDirectiveType d.keyword = some d.kind → p d = true) :
     ∀ (c c' : Core), DirsAll p c → c.banned = banned → Core.run fsys n c = .ok c' → DirsAll p c' := by
   induction n with
   | zero => intro c c' _ _ h; simp [Core.run] at h
@@ -219,7 +221,7 @@ theorem run_dirs (fsys : FileSys) (n : Nat) (banned : List Kind)
         · split at h
           · cases h
           · rename_i c1 hon
-            obtain ⟨h1, h2⟩ := onLexeme_dirs p hkind _ c1 l (hc1 false) (by intro d hd; exact hnew d (by rw [← hb]; exact hd)) hon
+            obtain ⟨h1, h2⟩ := onLexeme_dirs p hkind _ c1 l (hc1 false) (by intro d hd hk; exact hnew d (by rw [← hb]; exact hd) hk) hon
             exact ih c1 c' h1 (by rw [h2]; exact hb) h
     · rename_i sc' _
       split at h
@@ -238,10 +240,25 @@ end
 theorem scan_forest_not_banned (fsys : FileSys) (n : Nat) (rootName : Bytes) (env : Env) (banned : List Kind) (c' : Core)
     (h : Core.run fsys n { current := { name := rootName, env := env, sc := Sc.init .stateRoot }, banned := banned } = .ok c') :
     Tree.allList (notBanned banned) c'.ctx.forest = true := by
-  have hk : ∀ d d' : Dir, d'.kind = d.kind → notBanned banned d = true → notBanned banned d' = true := by
-    intro d d' hk hd
+  have hk : ∀ d d' : Dir, d'.kind = d.kind → d'.keyword = d.keyword → notBanned banned d = true → notBanned banned d' = true := by
+    intro d d' hk _ hd
     simpa [notBanned, hk] using hd
-  have := run_dirs (notBanned banned) hk fsys n banned (by intro d hd; simp only [notBanned, hd]; rfl) _ c'
+  have := run_dirs (notBanned banned) hk fsys n banned (by intro d hd _; simp only [notBanned, hd]; rfl) _ c'
+    ⟨rfl, fun d hd => by cases hd⟩ rfl h
+  exact forest_all _ _ this.1
+
+/-- the kind of a directive is the one the directive table gives to its keyword text -/
+def kindOfKeyword (d : Dir) : Bool := Spec.newDirectiveType d.keyword == some d.kind
+
+/-- **every directive of the scanned forest was made from a keyword of the directive table, with the
+    kind the table gives it** -/
+theorem scan_forest_keywords (fsys : FileSys) (n : Nat) (rootName : Bytes) (env : Env) (banned : List Kind) (c' : Core)
+    (h : Core.run fsys n { current := { name := rootName, env := env, sc := Sc.init .stateRoot }, banned := banned } = .ok c') :
+    Tree.allList kindOfKeyword c'.ctx.forest = true := by
+  have hk : ∀ d d' : Dir, d'.kind = d.kind → d'.keyword = d.keyword → kindOfKeyword d = true → kindOfKeyword d' = true := by
+    intro d d' hk hkw hd
+    simpa [kindOfKeyword, hk, hkw] using hd
+  have := run_dirs kindOfKeyword hk fsys n banned (by intro d _ hd; simp [kindOfKeyword, hd]) _ c'
     ⟨rfl, fun d hd => by cases hd⟩ rfl h
   exact forest_all _ _ this.1
 
